@@ -152,6 +152,40 @@ func checkC14(c *Ctx) {
 		}
 	}
 
+	// ---- C14.6 a subnet carries the port flag of the group it was configured in: the flag stored with a parsed subnet is
+	// the RandomizeDstPort of the message its CIDR strings come from, and that message is a group of the configuration
+	// itself (not a message assembled from several groups, whose single flag is whichever group was merged last)
+	r.Rule("C14.6", "a parsed subnet's port flag is its own configured group's flag", 2)
+	if f := c.fn("C14.6", ph, "", "parseSubnets"); f != nil && len(f.Params) == 1 {
+		n := 0
+		for _, st := range fieldStores(f, "phantoms.phantomNet", "supportRandomPort") {
+			n++
+			okk := pathOf(st.Val) == P(f, 0)+".GetRandomizeDstPort()"
+			r.Check(okk, "C14.6", "parseSubnets: flag = the group's own GetRandomizeDstPort()", st.Pos(), fnName(f), firstN(pathOf(st.Val), 60), "the port flag stored with a subnet is not the flag of the group the subnet was read from")
+		}
+		if n == 0 {
+			r.Unk("C14.6", "parseSubnets: supportRandomPort store", f.Pos(), fnName(f), "not found")
+		}
+		nCalls := 0
+		for _, g := range c.funcsOfPkgs(ph) {
+			if strings.Contains(r.posStr(g.Pos()), "_test") {
+				continue
+			}
+			for _, ci := range callsIn(g, shortIs("parseSubnets")) {
+				if ci.Common().StaticCallee() != f {
+					continue
+				}
+				nCalls++
+				arg := ci.Common().Args[0]
+				r.Check(!messageBuiltHere(arg, 0, map[ssa.Value]bool{}), "C14.6", fnName(g)+": parseSubnets is handed a group of the configuration itself", ci.Pos(), fnName(g), firstN(pathOf(arg), 60),
+					"parseSubnets is handed "+firstN(pathOf(arg), 50)+", a message built in this function, not a configured group: subnets of several groups get one common port flag (the last one merged), so a phantom of a group that forbids a random port is returned with randomisation granted")
+			}
+		}
+		if nCalls == 0 {
+			r.Unk("C14.6", "parseSubnets call sites", f.Pos(), fnName(f), "none found")
+		}
+	}
+
 	// ---- C14.5 containment guards
 	r.Rule("C14.5", "address built only under offset < netSize; subnet match tests both bounds", 2)
 	checkMaskedBase(c, "C14.5", ph)
@@ -562,6 +596,12 @@ func checkSelectionPurity(c *Ctx, rule, ph string) {
 					case n == "os.Getenv":
 						bad = "reads the environment"
 					}
+				case *ssa.Range:
+					// the iteration order of a map is random per run of the loop: a result assembled in that order
+					// differs from call to call
+					if _, isMap := x.X.Type().Underlying().(*types.Map); isMap {
+						bad = "ranges over the map " + firstN(pathOf(x.X), 40) + " (random iteration order)"
+					}
 				case *ssa.Store:
 					if g, ok := x.Addr.(*ssa.Global); ok {
 						bad = "writes package-level variable " + g.Name()
@@ -664,4 +704,70 @@ func checkMaskedBase(c *Ctx, rule, ph string) {
 		})
 	}
 	_ = nNets
+}
+
+
+// messageBuiltHere: v may be a protobuf message allocated (new / composite literal / proto.Clone) in the function
+// that uses it, possibly taken back out of a local slice it was appended to.
+func messageBuiltHere(v ssa.Value, depth int, seen map[ssa.Value]bool) bool {
+	if v == nil || depth > 12 || seen[v] {
+		return false
+	}
+	seen[v] = true
+	switch x := v.(type) {
+	case *ssa.Alloc:
+		if p, ok := x.Type().Underlying().(*types.Pointer); ok {
+			if _, isStruct := p.Elem().Underlying().(*types.Struct); isStruct {
+				return true
+			}
+		}
+		// a local variable: what is stored into it
+		if x.Referrers() != nil {
+			for _, ref := range *x.Referrers() {
+				if st, ok := ref.(*ssa.Store); ok && st.Addr == ssa.Value(x) && messageBuiltHere(st.Val, depth+1, seen) {
+					return true
+				}
+				if ia, ok := ref.(*ssa.IndexAddr); ok && ia.Referrers() != nil {
+					for _, r2 := range *ia.Referrers() {
+						if st, ok := r2.(*ssa.Store); ok && messageBuiltHere(st.Val, depth+1, seen) {
+							return true
+						}
+					}
+				}
+			}
+		}
+	case *ssa.Call:
+		n := calleeName(&x.Call)
+		if n == "google.golang.org/protobuf/proto.Clone" {
+			return true
+		}
+		if b, ok := x.Call.Value.(*ssa.Builtin); ok && b.Name() == "append" {
+			for _, a := range x.Call.Args {
+				if messageBuiltHere(a, depth+1, seen) {
+					return true
+				}
+			}
+		}
+	case *ssa.Phi:
+		for _, e := range x.Edges {
+			if messageBuiltHere(e, depth+1, seen) {
+				return true
+			}
+		}
+	case *ssa.UnOp:
+		return messageBuiltHere(x.X, depth+1, seen)
+	case *ssa.IndexAddr:
+		return messageBuiltHere(x.X, depth+1, seen)
+	case *ssa.Slice:
+		return messageBuiltHere(x.X, depth+1, seen)
+	case *ssa.TypeAssert:
+		return messageBuiltHere(x.X, depth+1, seen)
+	case *ssa.MakeInterface:
+		return messageBuiltHere(x.X, depth+1, seen)
+	case *ssa.ChangeType:
+		return messageBuiltHere(x.X, depth+1, seen)
+	case *ssa.Extract:
+		return messageBuiltHere(x.Tuple, depth+1, seen)
+	}
+	return false
 }
